@@ -5,7 +5,7 @@ for id in "$@"; do for m in m1 m2; do
   wt=${pre}_$id
   [ -f $wt/$m.patch ] || { echo "=== $id $m : no patch"; continue; }
   v=$(/verif/tools/seed_verify.sh $wt $m | head -1)
-  out=$(/verif/tools/seed_eval.sh $wt/$m.patch $id 2>&1 | grep -v KNOWN)
+  out=$(SEED_TREE=${SEED_TREE:-/repo} /verif/tools/seed_eval.sh $wt/$m.patch $id 2>&1 | grep -v KNOWN)
   if echo "$out" | grep -q "^VIOLATION"; then r=CAUGHT; else r=MISSED; fi
   echo "=== $id $m : $r :: $v"
   echo "$out" | grep "key=" | head -2 | cut -c1-200
